@@ -100,7 +100,7 @@ package pcache
 //@   at call Err#3: after assume result != nil
 //@   at call Store#1: assert isfresh(arg1)
 //@   at call Store#2: assert isfresh(arg1)
-//@   at call needMerge#1: assume arg0 < 2147483648 && arg1 < 2147483648
+//@   at call needMerge: assume arg0 < 2147483648 && arg1 < 2147483648
 //@   loop 1: invariant pcOK(pc) && held(pc.writeLock) && pc.seq == seq && seq != old(pc.seq) && rangeindex < len(pc.sources)
 //@   loop 2: invariant pcOK(pc) && held(pc.writeLock) && pc.seq == seq && seq != old(pc.seq) && rangeindex < len(fetchedInfos) && forall(j, 0, len(fetchedInfos), fetchedInfos[j] != nil)
 // merge rule, per fetched record (from the property: the record bearing the most recent
@@ -125,7 +125,7 @@ package pcache
 // and, if its record changed in this refresh, is re-published; one no longer reported is removed (leaving a tombstone that overrides the main map) only once its removal timer, armed by an earlier refresh, has run out.
 //@   loop 4: iteration ensures cinfo.seq == seq ==> has(pc.write, pid) && (cinfo.updateSeq == seq ==> has(updates, pid))
 //@   loop 4: iteration ensures !has(pc.write, pid) ==> has(updates, pid) && updates[pid] == nil
-//@   at call delete#1: assert cinfo.seq != seq && cinfo.expiresAt != zero("time.Time") && now > cinfo.expiresAt
+//@   at call delete: assert cinfo.seq != seq && cinfo.expiresAt != zero("time.Time") && now > cinfo.expiresAt
 // a merged main map has, for every provider of the write map, the updated record if there is one, else the old one:
 //@   loop 5: invariant all(k, visitedkey(pc.write, k) ==> has(m, k) && m[k] == ite(has(updates, k), updates[k], read.m[k]))
 //@   at call Store#2: assert all(k, has(pc.write, k) ==> has(arg1.m, k) && arg1.m[k] == ite(has(updates, k), updates[k], read.m[k]))
@@ -139,12 +139,12 @@ package pcache
 //@   requires pcOK(pc) && ctx != nil && !held(pc.writeLock)
 //@   modifies mapof(pc.write), pc.read, objects(cacheInfo)
 //@   ensures pcOK(pc) && !held(pc.writeLock)
-//@   at call Fetch#1: assert !old(has(pc.write, pid)) || count("call:Errorw") >= 1
+//@   at call Fetch: assert !old(has(pc.write, pid)) || count("call:Errorw") >= 1
 // a miss is always remembered - with the record found, or as absent whatever the sources answered (not
 // found, failed, nothing): every return that is not the cancellation return leaves an entry for pid
 //@   ensures-local has(pc.write, pid) || count("call:Context.Err") >= 1
-//@   at call As#1: after assume result ==> apiErr != nil
-//@   at call needMerge#1: assume arg0 < 2147483648 && arg1 < 2147483648
+//@   at call As: after assume result ==> apiErr != nil
+//@   at call needMerge: assume arg0 < 2147483648 && arg1 < 2147483648
 //@   ensures-local count("atomic.store:read") <= 1
 //@   at call Store#1: assert isfresh(arg1)
 //@   at call Store#2: assert isfresh(arg1)
@@ -242,8 +242,8 @@ package pcache
 //@   requires s != nil && ctx != nil
 //@   assumes srcOK(s)
 //@   ghost gb := zero("[]byte")
-//@   at call ReadAll#1: after ghost gb := result0
-//@   at call Unmarshal#1: assert arg0 == gb
+//@   at call ReadAll: after ghost gb := result0
+//@   at call Unmarshal: assert arg0 == gb
 //@   ensures-local result1 == nil ==> (count("call:Unmarshal") == 1 && count("call:ReadAll") == 1) || count("call:FromResponse") == 1
 
 //@ func (*httpSource).Fetch
@@ -251,6 +251,6 @@ package pcache
 //@   requires s != nil && ctx != nil
 //@   assumes srcOK(s)
 //@   ghost gb := zero("[]byte")
-//@   at call ReadAll#1: after ghost gb := result0
-//@   at call Unmarshal#1: assert arg0 == gb
+//@   at call ReadAll: after ghost gb := result0
+//@   at call Unmarshal: assert arg0 == gb
 //@   ensures-local result1 == nil && result0 != nil ==> count("call:Unmarshal") == 1 && count("call:ReadAll") == 1 && isfresh(result0)
